@@ -129,10 +129,11 @@ static void body(void) {
   if (!big) a = 1 + vx_choose("npc-1", rank);
   else { int cand[4] = {rank, 1, rank - 1, 2}, u[4], nu = 0, want = (vx_thorough() && plain) ? 4 : 3; for (int i = 0; i < want; i++) { int dup = cand[i] < 1 || cand[i] > rank; for (int j = 0; j < nu; j++) if (u[j] == cand[i]) dup = 1; if (!dup) u[nu++] = cand[i]; } a = u[vx_choose("npc-sel", nu)]; }
   ld F = rm_fro(E0), kappa = sv[0] / sv[a - 1];
-  double delta = nipals_delta(n, PCACONVERGENCE);
+  double delta = nipals_delta(n, DOC_PCACONVERGENCE);
 
   /* ---------------------------------------------------------------- the fit under test */
   PCAMODEL *mod; NewPCAModel(&mod);
+  H_INPUT_HASH = vx_hash_doubles(X_, (size_t)(n * p), (uint64_t)(scaling + 8 * a));
   static char TK[200]; snprintf(TK, sizeof TK, "nonterm|PCA|scaling=%d", scaling); fit_begin(nproc, real_threads, TK);
   PCA(mx, scaling, (size_t)a, mod, NULL); vx_transition(1);
   long iters = H_KERNEL_CALLS / 2;
@@ -143,11 +144,11 @@ static void body(void) {
                  && (int)mod->colaverage->size == (scaling >= 0 ? p : 0) && (int)mod->colscaling->size == (scaling >= 0 ? p : 0);
   snprintf(key, sizeof key, "shape|PCA|scaling=%d", scaling);
   vx_check(shape_ok, key, "(%dx%d) npc %d: scores %zux%zu loadings %zux%zu varexp %zu colaverage %zu colscaling %zu", n, p, a, mod->scores->row, mod->scores->col, mod->loadings->row, mod->loadings->col, mod->varexp->size, mod->colaverage->size, mod->colscaling->size);
-  if (!shape_ok) { vx_outcome(1); return; }
+  if (!shape_ok) { vx_outcome(vx_hash_doubles(X_, (size_t)(n * p), 1)); return; }
   int finite = hm_allfinite(mod->scores) && hm_allfinite(mod->loadings) && hv_allfinite(mod->varexp);
   snprintf(key, sizeof key, "finite|PCA|scaling=%d", scaling);
   vx_check(finite, key, "(%dx%d) scaling %d npc %d: non-finite scores/loadings/varexp", n, p, scaling, a);
-  if (!finite) { vx_outcome(2); return; }
+  if (!finite) { vx_outcome(vx_hash_doubles(X_, (size_t)(n * p), 2)); return; }
   /* stored centring/scaling are those of the public preprocessing */
   snprintf(key, sizeof key, "stored-prep|PCA|scaling=%d", scaling);
   vx_check(hv_maxdiff(mod->colaverage, avg) == 0 && hv_maxdiff(mod->colscaling, scl) == 0, key, "stored colaverage/colscaling differ from MatrixPreprocess");
@@ -254,6 +255,6 @@ int main(int argc, char **argv) {
   vx_describe("oracle", "P'P=I; t_k=E_{k-1}p_k (long-double deflation); E=TP'+R, R p_k=0; GetResidualMatrix = R (nproc=1; scaling -1 probed in a child on unmodified inputs); varexp>=0, sum<=100, =100 at npc=rank, non-increasing where ref lambda ratio<=0.95; at npc=rank PCAIndVarPredictor reproduces X and PCAScorePredictor(X) reproduces T; nproc=k equals nproc=1. Tolerances: C*eps*size*kappa*|E|_F with kappa=sigma_1/sigma_npc from reference singular values; stop-rule slack 100*(2d+d^2), d=sqrt(n*1e-10), on the variance sum");
   vx_describe("preconditions", "column spread >= 0.02 or exactly 0; numerical rank (sigma_i/sigma_1 > 1e-6, gap to 1e-11) >= npc; ties at the 1e-3/1e-2 scale-factor guards pruned");
   vx_set_shard_depth(2);
-  vx_expect_outcomes(300);   /* low on purpose: a library that breaks every fit must surface as violations, not as a vacuity error */
+  vx_expect_outcomes(40);   /* low on purpose: a library that returns the same (e.g. all-zero) model for every input of a shape must surface as violations, not as a vacuity error */
   return vx_main(argc, argv, "C01", body);
 }
